@@ -47,6 +47,7 @@ class Lin:
         self.fn = fn
         self.sym = sym_of_decl     # decl id -> symbol
         self.pos = pos             # current linear value of rs.pos
+        self.bound = {}            # locals of the explored path: value at their declaration
 
     def ev(self, e):
         e = strip_casts(e)
@@ -60,6 +61,8 @@ class Lin:
             s = self.sym.get(e["ref"]["id"])
             if s:
                 return {s: 1}
+            if e["ref"]["id"] in self.bound:
+                return self.bound[e["ref"]["id"]]
             # a local helper variable: its initialiser (hoisted sub-expression)
             for n in walk(self.fn.body):
                 if n["k"] == "VarDecl" and n.get("did") == e["ref"]["id"] and kids(n) and kids(n)[0] is not None:
@@ -198,7 +201,8 @@ def check_loops(ck, tu):
         rsdecl = [n for n in walk(kids(w)[1]) if n["k"] == "VarDecl" and any(
             "callee" in z and z["callee"]["name"] == "top" for z in walk(n))]
         rs = rsdecl[0]["did"] if rsdecl else None
-        body_stmts = [s for s in kids(kids(w)[1]) if s["k"] != "DeclStmt"]
+        keep = {bdecl["did"]} | ({rs} if rs is not None else set())
+        body_stmts = [s for s in kids(kids(w)[1]) if s["k"] != "DeclStmt" or not any(v.get("did") in keep for v in kids(s))]
         seq = {"k": "CompoundStmt", "ch": body_stmts, "id": -3}
 
         def atomize(n, run):
@@ -231,6 +235,12 @@ def check_loops(ck, tu):
                         sl = [z for z in walk(body) if "callee" in z and z["callee"]["name"] == "set_lcp"]
                         val = L.ev(kids(sl[0])[2]) if sl else None
                         fills.append((lo, hi, val, e))
+                    continue
+                if ev[0] == "decl":
+                    if kids(e) and kids(e)[0] is not None:
+                        v_ = L.ev(kids(e)[0])
+                        if v_ is not None:
+                            L.bound[e["did"]] = v_         # the value at the declaration, not at the use
                     continue
                 if ev[0] != "expr":
                     continue
